@@ -1,13 +1,16 @@
 """Which verification tasks serve which property, and the fixed lists reported in every evidence file."""
-TASK_MODULES = ["pyvc.tasks_layer1"]
+TASK_MODULES = ["pyvc.tasks_layer1", "pyvc.tasks_c07", "pyvc.tasks_c16"]
 
 L1_ALL = ["layer1/Circuit." + m for m in ("type", "is_output", "fanin", "fanout", "nodes", "edges", "connect", "disconnect", "remove",
-                                          "set_output", "set_type", "outputs", "inputs", "io", "startpoints", "endpoints")]
+                                          "set_output", "set_type", "outputs", "inputs", "io", "startpoints", "endpoints", "uid", "add[default]", "add[uid]")]
 PROPERTY_TASKS = {
     "C07": ["layer1/Circuit.connect", "layer1/Circuit.disconnect", "layer1/Circuit.remove", "layer1/Circuit.set_output",
-            "layer1/Circuit.type", "layer1/Circuit.fanin", "layer1/Circuit.fanout"],
+            "layer1/Circuit.type", "layer1/Circuit.fanin", "layer1/Circuit.fanout", "layer1/Circuit.uid",
+            "layer1/Circuit.add[default]", "layer1/Circuit.add[uid]",
+            "C07/connect", "C07/disconnect", "C07/remove", "C07/set_output", "C07/add[default]", "C07/add[uid]"],
     "C12": ["layer1/Circuit.fanin", "layer1/Circuit.fanout", "layer1/Circuit.startpoints", "layer1/Circuit.endpoints",
             "layer1/Circuit.inputs", "layer1/Circuit.outputs"],
+    "C16": ["C16/remove_unloaded", "layer1/Circuit.remove", "layer1/Circuit.fanin", "layer1/Circuit.fanout", "layer1/Circuit.type", "layer1/Circuit.is_output"],
     "C19": L1_ALL,
 }
 
@@ -31,3 +34,5 @@ EXTRACTION_DROPS = [
     "the text of exception messages (class and path condition are kept)",
     "import statements (imported names are bound to assumed contracts)",
 ]
+
+TASK_FILES = {"layer1": "circuitgraph/circuit.py", "C07": "circuitgraph/circuit.py", "C16": "circuitgraph/circuit.py"}
